@@ -83,7 +83,12 @@ func (evt *endEvent) NextAction(ctx context.Context, flow Flow) chan IAction {
 	})
 
 	response := make(chan IAction, 1)
-	evt.mch <- nextActionMessage{response: response}
+	select {
+	case evt.mch <- nextActionMessage{response: response}:
+	case <-ctx.Done():
+		// the node's loop may have left already; the token's own select
+		// observes the cancellation
+	}
 	return response
 }
 
